@@ -552,7 +552,12 @@ pub fn majorant(f: Func, x0: f64, g: &Ser) -> Ser {
         }
     }
     if let Some(rho) = radius(f, x0) {
-        for k in 1..m.len() {
+        // Functions whose derivatives are algebraic in x and do not involve the function value
+        // (atan' = 1/(1+x^2), ln' = 1/x, ...): the chain starts at the first derivative.  Starting it
+        // at g_0 would let the constant part of the value (atan x ~ pi/2, ln x ~ 69 at 1e30) swamp
+        // derivatives that decay like 1/x^2 and make the comparison vacuous at large arguments.
+        let start = if matches!(f, Func::Atan | Func::Asinh | Func::Acosh | Func::Asin | Func::Acos | Func::Atanh | Func::Ln | Func::Log(_) | Func::Log2 | Func::Log10 | Func::Ln1p) { 2 } else { 1 };
+        for k in start..m.len() {
             m[k] = m[k].max(m[k - 1] / rho);
         }
     }
